@@ -17,12 +17,14 @@ PLANS = {
     "quick": [
         ("d1-full-2dev", 1, "FULL", 2, 2),
         ("d2-rep-1dev", 2, "REP", 1, None),
+        ("selfnest-3-4-rep-1dev", "selfnest", "REP", 1, None),
     ],
     "thorough": [
         ("d1-full-2dev", 1, "FULL", 2, None),
         ("d2-full-1dev", 2, "FULL", 1, None),
         ("d2-rep-2dev", 2, "REP", 2, 2),
         ("d3ctx-rep-1dev", 3, "REP", 1, None),
+        ("selfnest-3-5-rep-1dev", "selfnest5", "REP", 1, None),
     ],
 }
 PLANS["purity"] = [("d1-full-1dev", 1, "FULL", 1, None), ("d1-rep-2dev", 1, "REP", 2, 2), ("d2-mini-1dev", 2, "MINI", 1, None)]
@@ -146,6 +148,7 @@ ORACLES = {"C01": oracle_c01, "C03": oracle_c03, "C06": oracle_c06, "C18": oracl
 # --------------------------------------------------------------------------- worker
 
 _memo: dict = {}
+MINIMISE_CAP = 4000  # per program
 
 
 def _eval(prop, case: g.Case):
@@ -194,6 +197,11 @@ def work(unit):
         raw_fail += 1
         for cls in classes:
             outcome["fail:" + cls.split(":")[0]] += 1
+            if raw_fail > MINIMISE_CAP and (case, cls) not in minimal:
+                # flood of failures for this program: report the raw case instead of minimising
+                outcome["not_minimised"] += 1
+                minimal[(case, cls)] = [1, detail]
+                continue
             for m in g.minimal_cases(case, cls, fails):
                 ent = minimal.get((m, cls))
                 if ent is None:
@@ -219,7 +227,19 @@ def work(unit):
 def units_for(prop, tier):
     units = []
     for name, depth, alphabet, max_dev, dist in PLANS[tier]:
-        if depth == 1:
+        if depth in ("selfnest", "selfnest5"):
+            # every composite construct nested in each of its own holes (chains of the same construct)
+            progs = []
+            for c in g.COMPOSITE_CONSTRUCTS:
+                for h in range(g.n_holes(c)):
+                    for d in ((3, 4) if depth == "selfnest" else (3, 4, 5)):
+                        p = g.X
+                        for _ in range(d):
+                            kids = [g.X] * g.n_holes(c)
+                            kids[h] = p
+                            p = g.P(c, tuple(kids))
+                        progs.append(p)
+        elif depth == 1:
             progs = list(g.programs(1))
         elif depth == 2:
             progs = list(g.programs(2, constructs=g.COMPOSITE_CONSTRUCTS))
@@ -326,7 +346,7 @@ def run(prop: str, tier: str) -> core.Report:
         assumptions=[
             "tree-sitter-nix 0.1.0 defines 'parses without error' (trailing formals comma allowed in outputs only)",
             "identifier/literal values beyond the catalogue are not varied",
-            "bounds: " + "; ".join(f"{n}: depth {d}, alphabet {a}, <= {k} deviations" + (f", pair distance <= {dist}" if dist else "") for n, d, a, k, dist in PLANS[tier]),
+            "bounds: " + "; ".join(f"{n}: depth {d if isinstance(d, int) else 'self-nesting chains'}, alphabet {a}, <= {k} deviations" + (f", pair distance <= {dist}" if dist else "") for n, d, a, k, dist in PLANS[tier]),
             "a failing case is reported through the minimal failing cases it reduces to (DESIGN 1.4)",
         ],
     )
